@@ -64,7 +64,7 @@ func injectTag(contents []byte, area textArea) (injected []byte) {
 	oldTag := newTagItems(area.CurrentTag)   // 原来的 tag
 	injectTag := newTagItems(area.InjectTag) // 待注入的 tag
 	finalTag := oldTag.override(injectTag)
-	expr = rInject.ReplaceAll(expr, []byte(fmt.Sprintf("`%s`", finalTag.format())))
+	expr = rInject.ReplaceAllLiteral(expr, []byte(fmt.Sprintf("`%s`", finalTag.format())))
 	injected = append(injected, contents[:area.Start-1]...)
 	injected = append(injected, expr...)
 	injected = append(injected, contents[area.End-1:]...)
